@@ -593,7 +593,8 @@ func (r *Ref) call(f V, args []V, y yh, name string) V {
 		return v
 	}
 	fr := &Frame{slots: map[string]V{}, written: map[string]bool{}, closure: fn.closure}
-	for i, p := range fn.Params {
+	keys := paramKeys(fn.Params)
+	for i, p := range keys {
 		fr.slots[p] = args[i]
 		fr.written[p] = true
 	}
@@ -602,11 +603,28 @@ func (r *Ref) call(f V, args []V, y yh, name string) V {
 		r.MaxDepth = r.depth
 	}
 	c := r.cur
-	c.frames = append(c.frames, &callRec{name: name, params: fn.Params, fr: fr})
+	c.frames = append(c.frames, &callRec{name: name, params: keys, fr: fr})
 	v, _ := r.eval(fn.body, fr, y)
 	c.frames = c.frames[:len(c.frames)-1]
 	r.depth--
 	return v
+}
+
+// paramKeys names the frame slots of the parameters: a repeated parameter
+// name refers to its last occurrence, the shadowed ones keep a slot of their
+// own (which no name can reach, but an error report lists).
+func paramKeys(params []string) []string {
+	keys := make([]string, len(params))
+	for i, p := range params {
+		keys[i] = p
+		for _, q := range params[i+1:] {
+			if q == p {
+				keys[i] = fmt.Sprintf("%s %d", p, i)
+				break
+			}
+		}
+	}
+	return keys
 }
 
 func (r *Ref) native(fn *Fn, args []V) V {
